@@ -297,7 +297,12 @@ def forwards_to_method(obj, wrapped_name, *args, **kwargs):
         return
     wrapped = self
     for attr in wrapped_name.split('.'):
-        wrapped = getattr(wrapped, attr)
+        try:
+            wrapped = getattr(wrapped, attr)
+        except AttributeError as exc:
+            raise ValueError(
+                'forwards_to_method: {0!r} has no attribute {1!r}'
+                .format(wrapped, attr)) from exc
     return forwards(obj, wrapped, *args, **kwargs)
 
 
